@@ -381,6 +381,12 @@ def run(index, rep, tier):
                               "%s declares `%s=%s`: with default arguments the function then trusts whatever bipartition encoding the trees carry, so after a tree was modified (default update_bipartitions=False everywhere) the answer describes the tree as it was before" % (fi.qualname, FLAG, norm(d) if d is not None else "<required>"))
         rep.floor("R04.10", "functions taking the freshness flag", 20, nflag)
 
+    # ---- R04.11 the trees compared carry the rooting their source states
+    with rep.section("R04.11"):
+        rep.rule("R04.11", "the trees compared carry the rooting their source states (C02 R02.19): the Newick reader recognises the rooting comment on the stripped text - a rooted tree that comes back 'rooting undefined' is treated as unrooted by the split encoding, and the distances of rooted trees then equal those of their unrooted shadows")
+        nb = borrow(index, rep, "C02", {"R02.19"}, "R04.11")
+        rep.floor("R04.11", "borrowed obligations", 1, nb)
+
 
 def _length_symmetry(rep, fi):
     """Classify None handling of edge lengths per tree within each loop."""
